@@ -721,6 +721,13 @@ func faultCases(thorough bool) []faultCase {
 			}
 		}
 	}
+	// the write side fails first; the read side learns of the failure only while / after the application closes or
+	// resets the client
+	for _, then := range []string{"close", "reset"} {
+		for _, i := range []int{1, 3} {
+			out = append(out, faultCase{"send+late-recv", i, codes.Unavailable, then})
+		}
+	}
 	return out
 }
 
@@ -740,8 +747,8 @@ func faultBody(fc faultCase) func() {
 			if len(stub.Modifies) != 1 {
 				return // only the first stream is faulty
 			}
-			if fc.side == "send" {
-				st.SendFailAt, st.SendFail = fc.index, ferr
+			if fc.side == "send" || fc.side == "send+late-recv" {
+				st.SendFailAt, st.SendFail, st.SendFailKeepsRecv = fc.index, ferr, fc.side == "send+late-recv"
 			} else {
 				st.RecvFailAt, st.RecvFail = fc.index, ferr
 			}
@@ -768,6 +775,12 @@ func faultBody(fc faultCase) func() {
 		d := rt.SelRecv(sel, c.Done())
 		_ = d
 		rt.Emit("done-signalled", sel.Wait() == 0)
+		if fc.side == "send+late-recv" {
+			// the read side of the old stream fails whenever this thread gets to run: while Close / Reset wait for
+			// the receiver, or - if they do not wait - at any later point of the application's life
+			first := stub.Modifies[0]
+			rt.Go("late-recv-failure", func() { first.Abort(fc.code) })
+		}
 		switch fc.then {
 		case "close":
 			c.Close()
@@ -841,7 +854,7 @@ func checkFault(fc faultCase) func(x *rt.Exec) []mc.Fail {
 		// was the fault reached at all? (a fault index beyond the traffic is a clean run)
 		f, _ := ev["final"].(final)
 		faultHit := f.sendErrs+f.recvErrs > 0 || !f.awaitNil
-		if fc.side == "send" && fc.index < 2+burst || fc.side == "recv" && fc.index < 2+burst {
+		if fc.index < 2+burst {
 			if f.awaitNil && f.sendErrs+f.recvErrs == 0 {
 				bad("C14/fault-not-reported", "%s: the stream failed but AwaitConverged reported convergence and no error was recorded (pending %v)", fc, f.pending)
 			}
